@@ -60,7 +60,10 @@ GHOST_FIELDS = {"$changed": BOOL, "$cls": INT,
                 # ghost: the set of keys a K-list was built from by append
                 "$elems": KSET,
                 # a sequence object that is a Python tuple (immutable) rather than a list
-                "$istuple": BOOL}
+                "$istuple": BOOL,
+                # summaries of an interior node's subtree (derived from its state; DESIGN 12.7):
+                # leftmost leaf, the successor link of the rightmost leaf, "subtree is well formed"
+                "$fst": INT, "$succ": INT, "$wf": BOOL}
 
 CLASS_IDS = {"Bucket": 1, "Set": 2, "Tree": 3, "TreeSet": 4, "_TreeItem": 5,
              "_SetIteration": 6, "_TreeItems": 7, "Length": 8, "Checker": 9}
@@ -152,6 +155,19 @@ class Engine:
         r = s.check()
         self.solver_time += time.time() - t
         return r != z3.unsat
+
+    def refuted_with_quantifiers(self, st, extra):
+        """Like `not feasible`, but with the quantified facts of the path condition (class
+        uniformity of siblings is one): used to prune receiver classes at a dynamic dispatch.
+        `unknown` keeps the path (sound)."""
+        s = z3.Solver()
+        s.set("timeout", 1500)
+        s.add(*st.pc)
+        s.add(extra)
+        t = time.time()
+        r = s.check()
+        self.solver_time += time.time() - t
+        return r == z3.unsat
 
     def valid(self, st, f):
         s = z3.Solver()
